@@ -30,10 +30,11 @@ type mig struct {
 
 type cfg struct {
 	page uint64
+	mem  uint64 // bytes of memory per GPU (0 = 2048)
 	migs []mig
 }
 
-const memBytes = 2048
+const defaultMemBytes = 2048
 
 type gpu struct {
 	name     string
@@ -56,8 +57,16 @@ type gpu struct {
 }
 
 func body(c cfg) explore.Body {
+	memBytes := uint64(defaultMemBytes)
+	if c.mem > 0 {
+		memBytes = c.mem
+	}
+	hz := 1500
+	if c.page > 1024 {
+		hz = 20000
+	}
 	return func(x *explore.Exec) *explore.Violation {
-		w := world.New(x, 1500)
+		w := world.New(x, hz)
 		var viol *explore.Violation
 		fail := func(sig, f string, a ...any) {
 			if viol == nil {
@@ -264,6 +273,17 @@ func main() {
 				b = bound - 1
 			}
 			scs = append(scs, harness.Scenario{Name: fmt.Sprintf("page%d/%s", p, s.name), Bound: b, Body: body(cfg{page: p, migs: s.m(p)})})
+		}
+	}
+	// real page sizes: 4 KiB (64 transfer units) and 8 KiB / 64 KiB (more than 64 units per page)
+	for _, p := range []uint64{4096, 8192, 65536} {
+		b := 0
+		if p <= 8192 {
+			b = 1
+		}
+		scs = append(scs, harness.Scenario{Name: fmt.Sprintf("page%d/one", p), Bound: b, Body: body(cfg{page: p, mem: 3 * p, migs: []mig{{0, 64, p + 128, 1}}})})
+		if p <= 8192 {
+			scs = append(scs, harness.Scenario{Name: fmt.Sprintf("page%d/both-directions", p), Bound: 0, Body: body(cfg{page: p, mem: 4 * p, migs: []mig{{0, 64, p + 128, 1}, {1, 2 * p, 0, 1}}})})
 		}
 	}
 	r.Assume = []string{
